@@ -1023,3 +1023,7 @@ from . import standins
 STANDINS = [standins.c08_matcher]
 
 PROBES = [chem.probe_bond_codes]
+# the double-bond stereo constraint (its own module: also part of C03)
+from . import C03stereo as _stereo
+UNITS += _stereo.UNITS
+PROBES += _stereo.PROBES
